@@ -1,6 +1,6 @@
 SPECIFICATION Spec
 CONSTANTS
-  Pool = {"a", "b", "c", "d"}
+  Pool = {"a", "b", "c", "root"}
   MaxItems = 2
   MaxTargets = 2
   MaxOdd = 1
